@@ -160,10 +160,20 @@ EdgeOut(st, e) ==
    rspfile |-> EV(st, e, "rspfile"), rspfile_content |-> EV(st, e, "rspfile_content"),
    restat |-> EV(st, e, "restat") # "", generator |-> EV(st, e, "generator") # "", deps |-> EV(st, e, "deps"), dyndep |-> e.dyndep]
 
+\* what a plain `ninja` builds: the targets of the default statements, or - without any - every output that no statement
+\* takes as an input (in manifest order); a graph in which every output is consumed has no roots (it is cyclic)
+SeqToSet(q) == {q[i] : i \in DOMAIN q}
+Roots(st) ==
+  LET used == UNION {SeqToSet(st.edges[i].ex) \cup SeqToSet(st.edges[i].im) \cup SeqToSet(st.edges[i].oo) : i \in DOMAIN st.edges}
+      RECURSIVE R(_)
+      R(i) == IF i > Len(st.edges) THEN <<>> ELSE SelectSeq(st.edges[i].outs \o st.edges[i].iouts, LAMBDA o : o \notin used) \o R(i + 1)
+  IN R(1)
+Builds(st) == IF st.defaults # <<>> THEN st.defaults
+              ELSE IF Len(st.edges) > 0 /\ Roots(st) = <<>> THEN <<"<no root nodes>">> ELSE Roots(st)
 Eval(files) ==
   LET st == DoFile(files, St0, 1, "build.ninja", 1, 0) IN
   IF ~st.ok THEN [ok |-> FALSE, err |-> st.err]
-  ELSE [ok |-> TRUE, err |-> "", edges |-> [i \in DOMAIN st.edges |-> EdgeOut(st, st.edges[i])], defaults |-> st.defaults,
+  ELSE [ok |-> TRUE, err |-> "", edges |-> [i \in DOMAIN st.edges |-> EdgeOut(st, st.edges[i])], defaults |-> st.defaults, builds |-> Builds(st),
         pools |-> [i \in 1..Cardinality(DOMAIN st.pools) |-> LET n == SetToSortSeq(DOMAIN st.pools, LAMBDA a, b : a < b)[i] IN [name |-> n, depth |-> st.pools[n]]]]
 
 (***************************************************************************)
